@@ -37,6 +37,33 @@ def impl_tokens(case):
         return ["EXC", type(e).__name__, str(e)[:200]]
 
 
+def impl_interleaved(case):
+    """two texts tokenized by ONE Tokenizer object, generators advanced in lockstep (the object model does this:
+    CSSStyleSheet.cssText and the rules it builds share util.Base's tokenizer), then a third, sequential use.
+    Returns the three token lists; each must equal what a fresh tokenizer gives for the text alone."""
+    fs, t1, t2 = case
+    from css_parser.tokenize2 import Tokenizer
+    try:
+        tk = Tokenizer()
+        g1, g2 = tk.tokenize(t1, fullsheet=bool(fs)), tk.tokenize(t2, fullsheet=bool(fs))
+        o1, o2, d1, d2 = [], [], False, False
+        while not (d1 and d2):
+            if not d1:
+                try:
+                    o1.append(list(next(g1)))
+                except StopIteration:
+                    d1 = True
+            if not d2:
+                try:
+                    o2.append(list(next(g2)))
+                except StopIteration:
+                    d2 = True
+        o3 = [list(t) for t in tk.tokenize(t1, fullsheet=bool(fs))]
+        return [o1, o2, o3]
+    except Exception as e:  # noqa
+        return ["EXC", type(e).__name__, str(e)[:200]]
+
+
 def model_tokens(line):
     if line == "NONE":
         return None
@@ -175,6 +202,28 @@ def run(ctx):
         if d:
             ctx.violation(d, {"dc": case[0], "fullsheet": case[1], "text": case[2]},
                           sig_text=json.dumps(case[2]))
+    # the model is a pure function of (doComments, fullsheet, text): validate that reading of the code by using one
+    # Tokenizer object for interleaved and repeated tokenizations (positions and values must not depend on it)
+    rng2 = ctx.rng
+    multi = [c for c in cases if "\n" in c[2] and len(c[2]) > 4]
+    pairs = []
+    for _ in range(3000 if not thorough else 20000):
+        a, b2 = rng2.choice(multi), rng2.choice(multi)
+        pairs.append((rng2.choice([0, 1]), a[2], b2[2]))
+    inter = ctx.pool_map(impl_interleaved, pairs, chunksize=256)
+    fresh = {}
+    for (fs, t1, t2), r in zip(pairs, inter):
+        if r and r[0] == "EXC":
+            ctx.violation("tokenizer raised %s when one object tokenizes two texts in lockstep" % r[1],
+                          {"dc": 1, "fullsheet": fs, "text": t1, "text2": t2, "expect": "interleaved"}, sig_text=json.dumps(t1))
+            continue
+        for t in (t1, t2):
+            if (fs, t) not in fresh:
+                fresh[(fs, t)] = impl_tokens((1, fs, t))
+        if r[0] != fresh[(fs, t1)] or r[1] != fresh[(fs, t2)] or r[2] != fresh[(fs, t1)]:
+            ctx.violation("tokens (values or positions) depend on other use of the same Tokenizer object "
+                          "(two generators advanced in lockstep, then a sequential re-use)",
+                          {"dc": 1, "fullsheet": fs, "text": t1, "text2": t2, "expect": "interleaved"}, sig_text=json.dumps(t1))
     if mism:
         ctx.broken("correspondence", "Tokenizer.tokenize vs CssV.Tokenizer.tokenize",
                    "%d of %d cases differ; first: %s" % (len(mism), len(cases), json.dumps(mism[:3])))
@@ -214,6 +263,7 @@ def run(ctx):
                 "non-trivial = distinct texts whose token list has >= 2 tokens" % (len(SMALL), n_exh),
         "samples": [list(c) for c in cases[n_exh + 5:n_exh + 9]] + [list(cases[1000])],
         "disagreements_checked": len(cases) if binary else 0,
+        "interleaved_pairs": len(pairs),
         "trusted_base": TRUSTED,
     }, assumptions=ASSUME, search=search)
 
@@ -228,6 +278,14 @@ def oracle_ext(w, toks):
         got = [t for t in toks if t[0] != "BOM"]
         if [t[2:] for t in got] != [t[2:] for t in ref] or "".join(t[1] for t in got) != "".join(t[1] for t in ref):
             return "U+FEFF at the start of the text is not treated as a zero-width byte-order mark"
+        return None
+    if w.get("expect") == "interleaved":
+        r = impl_interleaved((w["fullsheet"], w["text"], w["text2"]))
+        f1, f2 = impl_tokens((1, w["fullsheet"], w["text"])), impl_tokens((1, w["fullsheet"], w["text2"]))
+        if r and r[0] == "EXC":
+            return "tokenizer raised " + r[1]
+        if r[0] != f1 or r[1] != f2 or r[2] != f1:
+            return "tokens depend on other use of the same Tokenizer object"
         return None
     if w.get("expect") == "positions_raw":
         line, col = 1, 1
